@@ -37,6 +37,7 @@ func H_C05_dialects() {
 	vCheck(vBytesEq(raw, ref), "C05/dialects/bytes-equal-the-reference-encoding")
 	// the reference encoding is accepted and yields the same names
 	got := NewDialects()
+	got.AddDialect("EARLIER 1.0") // a reused receiver: the result describes the decoded bytes only
 	used, err := got.Unmarshal(ref)
 	vCheck(err == nil, "C05/dialects/reference-encoding-accepted")
 	if err != nil {
